@@ -1035,4 +1035,317 @@ theorem merge_eq_hash_left_outer (lk rk : List (Row → Val)) (hlk : lk ≠ []) 
   rw [beq_comm']
 
 
+/-- what the unmatched right groups contribute (right / full outer). -/
+def mergeR (pr : Bool) (nL : Nat) (lg rg : List KGroup) : List Row :=
+  if pr then (rg.filter (fun h => !(lg.any (fun g => g.1 == h.1)))).flatMap (fun h => h.2.map (nulls nL ++ ·)) else []
+
+theorem strictInc_tail {g : KGroup} {gs : List KGroup} (h : StrictInc (g :: gs)) : StrictInc gs := by
+  unfold StrictInc at h ⊢; rw [List.map_cons, List.pairwise_cons] at h; exact h.2
+
+theorem strictInc_head_lt {k : List Val} {rows : List Row} {gs : List KGroup} (h : StrictInc ((k, rows) :: gs)) :
+    ∀ g ∈ gs, rowCmp k g.1 = .lt := by
+  intro g hg
+  unfold StrictInc at h; rw [List.map_cons, List.pairwise_cons] at h
+  exact h.1 g.1 (List.mem_map_of_mem hg)
+
+theorem mergeR_congr_left (pr : Bool) (nL : Nat) (lg lg' rg : List KGroup)
+    (h : ∀ hh ∈ rg, lg.any (fun g => g.1 == hh.1) = lg'.any (fun g => g.1 == hh.1)) :
+    mergeR pr nL lg rg = mergeR pr nL lg' rg := by
+  unfold mergeR
+  cases pr
+  · rfl
+  · simp only [if_true]
+    congr 1
+    apply List.filter_congr
+    intro hh hm
+    rw [h hh hm]
+
+/-- the merge walk for all four join types, as a bag. -/
+theorem mergeLoop_perm (pl pr : Bool) (nL nR : Nat) :
+    ∀ (fuel : Nat) (lg rg : List KGroup), StrictInc lg → StrictInc rg → lg.length + rg.length ≤ fuel →
+      (mergeLoop pl pr nL nR fuel lg rg).Perm (lg.flatMap (mergeF pl nR rg) ++ mergeR pr nL lg rg) := by
+  intro fuel
+  induction fuel with
+  | zero =>
+    intro lg rg _ _ h
+    have h1 : lg = [] := List.eq_nil_of_length_eq_zero (by omega)
+    have h2 : rg = [] := List.eq_nil_of_length_eq_zero (by omega)
+    subst h1; subst h2
+    cases pr <;> simp [mergeLoop, mergeR]
+  | succ fuel ih =>
+    intro lg rg hl hr hf
+    cases lg with
+    | nil =>
+      cases rg with
+      | nil => cases pr <;> simp [mergeLoop, mergeR]
+      | cons r rs =>
+        obtain ⟨rk, rrows⟩ := r
+        unfold mergeLoop
+        have := ih [] rs hl (strictInc_tail hr) (by simp at hf ⊢; omega)
+        simp only [List.flatMap_nil, List.nil_append] at this ⊢
+        refine (Perm.append_left _ this).trans (Perm.of_eq ?_)
+        unfold mergeR
+        cases pr <;> simp
+    | cons l ls =>
+      obtain ⟨lk, lrows⟩ := l
+      have hl' := strictInc_tail hl
+      have hlgt := strictInc_head_lt hl
+      cases rg with
+      | nil =>
+        unfold mergeLoop
+        have := ih ls [] hl' hr (by simp at hf ⊢; omega)
+        simp only [List.flatMap_cons]
+        have hm : mergeF pl nR [] (lk, lrows) = if pl then lrows.map (· ++ nulls nR) else [] := by
+          simp [mergeF, lookupG]
+        have hR : mergeR pr nL ((lk, lrows) :: ls) [] = mergeR pr nL ls [] := by
+          unfold mergeR; cases pr <;> simp
+        rw [hm, hR, List.append_assoc]
+        exact Perm.append_left _ this
+      | cons r rs =>
+        obtain ⟨rk, rrows⟩ := r
+        have hr' := strictInc_tail hr
+        have hrgt := strictInc_head_lt hr
+        unfold mergeLoop
+        simp only [List.flatMap_cons]
+        by_cases heq : lk == rk
+        · have e : lk = rk := eq_of_beq heq
+          simp only [heq, if_true]
+          have h1 : mergeF pl nR ((rk, rrows) :: rs) (lk, lrows) = crossLR lrows rrows := by
+            unfold mergeF lookupG
+            have : (rk == lk) = true := by rw [e]; exact BEq.rfl
+            simp [List.find?_cons, this]
+          have h2 : ls.flatMap (mergeF pl nR ((rk, rrows) :: rs)) = ls.flatMap (mergeF pl nR rs) := by
+            apply flatMap_congr'
+            intro g hg
+            unfold mergeF
+            rw [lookupG_cons_ne g.1 rk rrows rs (by rw [← e]; exact rowCmp_lt_ne (hlgt g hg))]
+          have h3 : mergeR pr nL ((lk, lrows) :: ls) ((rk, rrows) :: rs) = mergeR pr nL ls rs := by
+            unfold mergeR
+            cases pr
+            · rfl
+            · simp only [if_true, List.filter_cons, List.any_cons, heq, Bool.true_or, Bool.not_true,
+                Bool.false_eq_true, if_false]
+              congr 1
+              apply List.filter_congr
+              intro hh hm
+              have : (lk == hh.1) = false := by rw [e]; exact rowCmp_lt_ne (hrgt hh hm)
+              simp [this]
+          rw [h1, h2, h3, List.append_assoc]
+          exact Perm.append_left _ (ih ls rs hl' hr' (by simp at hf ⊢; omega))
+        · simp only [heq, Bool.false_eq_true, if_false]
+          cases hc : rowCmp lk rk with
+          | lt =>
+            simp only [beq_self_eq_true, if_true]
+            have h1 : mergeF pl nR ((rk, rrows) :: rs) (lk, lrows) = if pl then lrows.map (· ++ nulls nR) else [] := by
+              unfold mergeF
+              rw [lookupG_none_of_lt lk rk rrows rs hr hc]
+            have h3 : mergeR pr nL ((lk, lrows) :: ls) ((rk, rrows) :: rs) = mergeR pr nL ls ((rk, rrows) :: rs) := by
+              apply mergeR_congr_left
+              intro hh hm
+              have hlt : rowCmp lk hh.1 = .lt := by
+                rcases List.mem_cons.mp hm with rfl | hm'
+                · exact hc
+                · exact rowCmp_trans hc (hrgt hh hm')
+              simp [List.any_cons, rowCmp_lt_ne hlt]
+            rw [h1, h3, List.append_assoc]
+            exact Perm.append_left _ (ih ls ((rk, rrows) :: rs) hl' hr (by simp at hf ⊢; omega))
+          | gt =>
+            have hne : (Ordering.gt == Ordering.lt) = false := rfl
+            simp only [hne, Bool.false_eq_true, if_false, beq_self_eq_true, if_true]
+            have hrk : rowCmp rk lk = .lt := by
+              have := rowCmp_swap lk rk; rw [hc] at this; simpa using this
+            have hrklt : ∀ g ∈ (lk, lrows) :: ls, rowCmp rk g.1 = .lt := by
+              intro g hg
+              rcases List.mem_cons.mp hg with rfl | hg'
+              · exact hrk
+              · exact rowCmp_trans hrk (hlgt g hg')
+            have hcong : ∀ g ∈ (lk, lrows) :: ls, mergeF pl nR rs g = mergeF pl nR ((rk, rrows) :: rs) g := by
+              intro g hg
+              unfold mergeF
+              rw [lookupG_cons_ne g.1 rk rrows rs (rowCmp_lt_ne (hrklt g hg))]
+            have h2 : ((lk, lrows) :: ls).flatMap (mergeF pl nR rs) =
+                mergeF pl nR ((rk, rrows) :: rs) (lk, lrows) ++ ls.flatMap (mergeF pl nR ((rk, rrows) :: rs)) := by
+              rw [List.flatMap_cons, hcong _ List.mem_cons_self]
+              congr 1
+              apply flatMap_congr'
+              intro g hg
+              exact hcong g (List.mem_cons_of_mem _ hg)
+            have h3 : mergeR pr nL ((lk, lrows) :: ls) ((rk, rrows) :: rs) =
+                (if pr then rrows.map (nulls nL ++ ·) else []) ++ mergeR pr nL ((lk, lrows) :: ls) rs := by
+              unfold mergeR
+              cases pr
+              · rfl
+              · have hnot : (((lk, lrows) :: ls).any (fun g => g.1 == rk)) = false := by
+                  rw [List.any_eq_false]
+                  intro g hg
+                  simp [rowCmp_lt_ne' (hrklt g hg)]
+                simp only [if_true, List.filter_cons, hnot, Bool.not_false, List.flatMap_cons]
+            have := ih ((lk, lrows) :: ls) rs hl hr' (by simp at hf ⊢; omega)
+            rw [h2] at this
+            rw [h3]
+            refine (Perm.append_left _ this).trans ?_
+            -- P ++ (A ++ B) ~ A ++ (P ++ B)
+            exact (perm_append_comm_assoc _ _ _)
+          | eq =>
+            exact absurd (by rw [(rowCmp_eq_iff lk rk).mp hc]; exact BEq.rfl) heq
+
+
+theorem mergeF_groups (pl : Bool) (nR : Nat) (lk rk : List (Row → Val)) (L R : List Row) (k : List Val) :
+    mergeF pl nR ((dedup (R.map (keyOf rk))).map (fun k => (k, R.filter (fun x => keyOf rk x == k))))
+        (k, L.filter (fun x => keyOf lk x == k)) =
+      crossLR (L.filter (fun l => keyOf lk l == k)) (R.filter (fun r => keyOf rk r == k)) ++
+        (if (pl && (R.filter (fun r => keyOf rk r == k)).isEmpty)
+          then (L.filter (fun l => keyOf lk l == k)).map (· ++ nulls nR) else []) := by
+  simp only [mergeF]
+  rw [lookupG_groups]
+  by_cases hc : (R.map (keyOf rk)).contains k
+  · rw [if_pos hc]
+    have hne : (R.filter (fun r => keyOf rk r == k)).isEmpty = false := by
+      rw [List.contains_iff_mem] at hc
+      obtain ⟨r, hr, hrk'⟩ := List.mem_map.mp hc
+      cases hf : R.filter (fun r => keyOf rk r == k) with
+      | nil =>
+        have : r ∈ R.filter (fun r => keyOf rk r == k) := List.mem_filter.mpr ⟨hr, by rw [hrk']; exact BEq.rfl⟩
+        rw [hf] at this; cases this
+      | cons _ _ => rfl
+    simp [hne]
+  · rw [if_neg hc]
+    have : R.filter (fun r => keyOf rk r == k) = [] := by
+      rw [List.filter_eq_nil_iff]
+      intro r hr hrk'
+      apply hc
+      rw [List.contains_iff_mem, ← eq_of_beq hrk']
+      exact List.mem_map_of_mem hr
+    cases pl <;> simp [this, crossLR_nil_right]
+
+/-- merge join over sorted inputs, all four types, as a bag in terms of the input rows: the
+structural inner join, the padded left rows without partner (left/full), the padded right rows
+without partner (right/full). -/
+theorem mergejoin_sorted_perm (t : JoinType) (lk rk : List (Row → Val)) (hlk : lk ≠ []) (hrk : rk ≠ []) (nL nR : Nat)
+    (Ls Rs : List Chunk)
+    (hsl : SortedBy rowCmp ((flat Ls).map (keyOf lk))) (hsr : SortedBy rowCmp ((flat Rs).map (keyOf rk))) :
+    (flat (mergeJoin t lk rk nL nR Ls Rs)).Perm
+      ((flat Ls).flatMap (fun l => ((flat Rs).filter (fun r => keyOf lk l == keyOf rk r)).map (l ++ ·)) ++
+       (if (t == .leftOuter || t == .fullOuter) then
+          ((flat Ls).filter (fun l => ((flat Rs).filter (fun r => keyOf lk l == keyOf rk r)).isEmpty)).map (· ++ nulls nR) else []) ++
+       (if (t == .rightOuter || t == .fullOuter) then
+          ((flat Rs).filter (fun r => ((flat Ls).filter (fun l => keyOf lk l == keyOf rk r)).isEmpty)).map (nulls nL ++ ·) else [])) := by
+  unfold mergeJoin
+  generalize hpl : (t == .leftOuter || t == .fullOuter) = pl
+  generalize hpr : (t == .rightOuter || t == .fullOuter) = pr
+  simp only []
+  rw [flat_emit, mergejoin_groups_sorted lk hlk _ hsl, mergejoin_groups_sorted rk hrk _ hsr]
+  refine (mergeLoop_perm pl pr nL nR _ _ _ (strictInc_groups _ _ _ hsl) (strictInc_groups _ _ _ hsr) (Nat.le_succ _)).trans ?_
+  rw [List.flatMap_map]
+  -- left part
+  have hleft : ((dedup ((flat Ls).map (keyOf lk))).flatMap
+        ((mergeF pl nR ((dedup ((flat Rs).map (keyOf rk))).map (fun k => (k, (flat Rs).filter (fun x => keyOf rk x == k))))) ∘
+          fun k => (k, (flat Ls).filter (fun x => keyOf lk x == k)))).Perm
+      ((flat Ls).flatMap (fun l => ((flat Rs).filter (fun r => keyOf lk l == keyOf rk r)).map (l ++ ·)) ++
+       (if pl then ((flat Ls).filter (fun l => ((flat Rs).filter (fun r => keyOf lk l == keyOf rk r)).isEmpty)).map (· ++ nulls nR) else [])) := by
+    have hsplit : (dedup ((flat Ls).map (keyOf lk))).flatMap
+          ((mergeF pl nR ((dedup ((flat Rs).map (keyOf rk))).map (fun k => (k, (flat Rs).filter (fun x => keyOf rk x == k))))) ∘
+            fun k => (k, (flat Ls).filter (fun x => keyOf lk x == k))) =
+        (dedup ((flat Ls).map (keyOf lk))).flatMap (fun k =>
+          crossLR ((flat Ls).filter (fun l => keyOf lk l == k)) ((flat Rs).filter (fun r => keyOf rk r == k)) ++
+          (if (pl && ((flat Rs).filter (fun r => keyOf rk r == k)).isEmpty)
+            then ((flat Ls).filter (fun l => keyOf lk l == k)).map (· ++ nulls nR) else [])) := by
+      apply flatMap_congr'
+      intro k _
+      simp only [Function.comp]
+      exact mergeF_groups pl nR lk rk (flat Ls) (flat Rs) k
+    refine (Perm.of_eq hsplit).trans ?_
+    refine (flatMap_append_perm _ _ _).trans ?_
+    refine Perm.append (regroup_inner lk rk (flat Ls) (flat Rs)) ?_
+    cases pl
+    · simp
+    · simp only [Bool.true_and, if_true]
+      have e2 := flatMap_ite_filter (fun k => ((flat Rs).filter (fun r => keyOf rk r == k)).isEmpty)
+        (fun k => ((flat Ls).filter (fun l => keyOf lk l == k)).map (· ++ nulls nR)) (dedup ((flat Ls).map (keyOf lk)))
+      refine (Perm.of_eq e2).trans ?_
+      rw [← List.map_flatMap]
+      refine (Perm.map _ (group_perm_filter (keyOf lk) (fun k => ((flat Rs).filter (fun r => keyOf rk r == k)).isEmpty) (flat Ls))).trans (Perm.of_eq ?_)
+      congr 1
+      apply List.filter_congr
+      intro l _
+      congr 1
+      apply List.filter_congr
+      intro r _
+      rw [beq_comm']
+  -- right part
+  have hright : (mergeR pr nL ((dedup ((flat Ls).map (keyOf lk))).map (fun k => (k, (flat Ls).filter (fun x => keyOf lk x == k))))
+        ((dedup ((flat Rs).map (keyOf rk))).map (fun k => (k, (flat Rs).filter (fun x => keyOf rk x == k))))).Perm
+      (if pr then ((flat Rs).filter (fun r => ((flat Ls).filter (fun l => keyOf lk l == keyOf rk r)).isEmpty)).map (nulls nL ++ ·) else []) := by
+    unfold mergeR
+    cases pr
+    · simp
+    · simp only [if_true]
+      rw [List.filter_map, List.flatMap_map]
+      have hq : ∀ k : List Val, (!(((dedup ((flat Ls).map (keyOf lk))).map (fun k => (k, (flat Ls).filter (fun x => keyOf lk x == k)))).any
+            (fun g => g.1 == k))) = ((flat Ls).filter (fun l => keyOf lk l == k)).isEmpty := by
+        intro k
+        rw [filter_isEmpty_eq_not_any]
+        congr 1
+        rw [List.any_map]
+        rw [Bool.eq_iff_iff, List.any_eq_true, List.any_eq_true]
+        constructor
+        · rintro ⟨d, hd, hdk⟩
+          have hm := (mem_dedup _ d).mp hd
+          obtain ⟨l, hl, rfl⟩ := List.mem_map.mp hm
+          exact ⟨l, hl, hdk⟩
+        · rintro ⟨l, hl, hlk'⟩
+          exact ⟨keyOf lk l, (mem_dedup _ _).mpr (List.mem_map_of_mem hl), hlk'⟩
+      have e3 : ((dedup ((flat Rs).map (keyOf rk))).filter
+            ((fun h : KGroup => !(((dedup ((flat Ls).map (keyOf lk))).map (fun k => (k, (flat Ls).filter (fun x => keyOf lk x == k)))).any
+              (fun g => g.1 == h.1))) ∘ fun k => (k, (flat Rs).filter (fun x => keyOf rk x == k)))).flatMap
+            ((fun h : KGroup => h.2.map (nulls nL ++ ·)) ∘ fun k => (k, (flat Rs).filter (fun x => keyOf rk x == k))) =
+          (((dedup ((flat Rs).map (keyOf rk))).filter (fun k => ((flat Ls).filter (fun l => keyOf lk l == k)).isEmpty)).flatMap
+            (fun k => (flat Rs).filter (fun x => keyOf rk x == k))).map (nulls nL ++ ·) := by
+        rw [List.map_flatMap]
+        congr 1
+        apply List.filter_congr
+        intro k _
+        simp only [Function.comp]
+        exact hq k
+      refine (Perm.of_eq e3).trans ?_
+      exact Perm.map _ (group_perm_filter (keyOf rk) (fun k => ((flat Ls).filter (fun l => keyOf lk l == k)).isEmpty) (flat Rs))
+  rw [List.append_assoc]
+  exact (Perm.append hleft hright).trans (Perm.of_eq (by rw [List.append_assoc]))
+
+/-- what the hash join returns, all four types, in the same terms (no hypothesis). -/
+theorem hashjoin_perm (t : JoinType) (ht : t = .inner ∨ t = .leftOuter ∨ t = .rightOuter ∨ t = .fullOuter)
+    (lk rk : List (Row → Val)) (nL nR : Nat) (Ls Rs : List Chunk) :
+    (flat (hashJoin t lk rk nL nR Ls Rs)).Perm
+      ((flat Ls).flatMap (fun l => ((flat Rs).filter (fun r => keyOf lk l == keyOf rk r)).map (l ++ ·)) ++
+       (if (t == .leftOuter || t == .fullOuter) then
+          ((flat Ls).filter (fun l => ((flat Rs).filter (fun r => keyOf lk l == keyOf rk r)).isEmpty)).map (· ++ nulls nR) else []) ++
+       (if (t == .rightOuter || t == .fullOuter) then
+          ((flat Rs).filter (fun r => ((flat Ls).filter (fun l => keyOf lk l == keyOf rk r)).isEmpty)).map (nulls nL ++ ·) else [])) := by
+  unfold hashJoin
+  generalize hpl : (t == .leftOuter || t == .fullOuter) = pl
+  generalize hpr : (t == .rightOuter || t == .fullOuter) = pr
+  simp only []
+  rw [flat_emit]
+  have h1 := probe_out_perm pr lk rk nL (flat Ls) (flat Rs)
+  have h2 : (if pl then
+        (((hjProbe pr rk nL (flat Rs) (hmBuild lk (flat Ls))).1).filter (fun e => !e.matched)).flatMap
+          (fun e => e.rows.map (· ++ nulls nR)) else []).Perm
+      (if pl then ((flat Ls).filter (fun l => ((flat Rs).filter (fun r => keyOf lk l == keyOf rk r)).isEmpty)).map (· ++ nulls nR) else []) := by
+    cases pl
+    · simp
+    · simp only [if_true]; exact hashjoin_rest_perm pr lk rk nL nR (flat Ls) (flat Rs)
+  refine (Perm.append h1 h2).trans ?_
+  -- (A ++ R) ++ Lp ~ (A ++ Lp) ++ R
+  simp only [List.append_assoc]
+  exact Perm.append_left _ perm_append_comm
+
+/-- `merge_eq_hash`, all four join types: on inputs sorted by their (non-empty) key lists the merge
+join and the hash join return the same bag — for every data, NULL and mixed-width keys included. -/
+theorem merge_eq_hash (t : JoinType) (ht : t = .inner ∨ t = .leftOuter ∨ t = .rightOuter ∨ t = .fullOuter)
+    (lk rk : List (Row → Val)) (hlk : lk ≠ []) (hrk : rk ≠ []) (nL nR : Nat) (Ls Rs : List Chunk)
+    (hsl : SortedBy rowCmp ((flat Ls).map (keyOf lk))) (hsr : SortedBy rowCmp ((flat Rs).map (keyOf rk))) :
+    (flat (mergeJoin t lk rk nL nR Ls Rs)).Perm (flat (hashJoin t lk rk nL nR Ls Rs)) :=
+  (mergejoin_sorted_perm t lk rk hlk hrk nL nR Ls Rs hsl hsr).trans (hashjoin_perm t ht lk rk nL nR Ls Rs).symm
+
+
 end RlModel
